@@ -4,12 +4,15 @@ import Driver.Common
 
 case:  `<op> <value>`   op ∈ id | call | copy | deepcopy | pickle0 … pickle5
 value (prefix tokens): `N` None, `T`/`F`, `I<int>`, `S<text>`, `M` the constant MISSING, `Mc` a call
-  `Missing()`, `Q` an object whose `__eq__` always answers True, `L<k>` list, `U<k>` tuple, `E<k>` set,
+  `Missing()`, `Q` an object whose `__eq__` always answers True, `P` an object of
+  another type whose `__class__` reports `Missing`, `L<k>` list, `U<k>` tuple, `E<k>` set,
   `Z<k>` frozenset (each followed by k values), `D<k>` dict (k key/value pairs), `A<k>` State
   instance with k attributes `a b c …`.
 out:   `<result tree> | is=<is_missing> not=<not_missing> when=<dflt|same> bool=<truthiness>
         eqL=<MISSING == r> eqR=<r == MISSING> | attr=<get,set,del on r if it is a Missing instance>
-        mod=<assignment of 6 / deletion of 3 special names: R = rejected> intact=<still the same falsy Missing>`
+        mod=<assignment of 6 / deletion of 3 special names: R = rejected>
+        byp=<object.__setattr__, vars(), .__dict__: R = rejected> post=<attribute read afterwards>
+        intact=<still the same falsy Missing>`
   in the result tree an instance of `Missing` prints `M` if it is the constant, `m` otherwise.
   A pickle round trip of a tree holding a `State` instance prints
   `ALT ERR:state-not-picklable || <line if it had succeeded>` (see comp_missing.canon). -/
@@ -33,6 +36,7 @@ def parseVal : Nat → List String → Option (Val × List String)
     else if tok = "M" then some (.missing 0, rest)
     else if tok = "Mc" then some (callType, rest)
     else if tok = "Q" then some (.alwaysEq 1, rest)
+    else if tok = "P" then some (.pretender 1, rest)
     else
       let arg := (tok.drop 1).toString
       match (tok.take 1).toString with
@@ -68,6 +72,7 @@ def showVal : Val → String
   | .missing 0 => "M"
   | .missing _ => "m"
   | .alwaysEq _ => "Q"
+  | .pretender _ => "P"
   | .list xs => " ".intercalate (s!"L{xs.length}" :: showList xs)
   | .tuple xs => " ".intercalate (s!"U{xs.length}" :: showList xs)
   | .set xs => " ".intercalate (s!"E{xs.length}" :: sortStrs (showList xs))
@@ -112,7 +117,8 @@ def line (r : Val) : String :=
       let mods := (specialSets.map (fun n => rejected (setAttr r n (.int 1)))) ++
                   (specialDels.map (fun n => rejected (delAttr r n)))
       s!"{attrShow (getAttr r "foo")},{attrShow (setAttr r "foo" (.int 1))},{attrShow (delAttr r "foo")}" ++
-      s!" mod={",".intercalate mods} intact=1"
+      s!" mod={",".intercalate mods} byp={rejected (rawSetAttr r "value" (.int 42))},{rejected (varsOf r)},{rejected (varsOf r)}" ++
+      s!" post={attrShow (getAttr r "value")} intact=1"
     | _ => "-"
   s!"{showVal r} | is={bit (isMissing r)} not={bit (notMissing r)} when={w} bool={bit (truthy r)} " ++
   s!"eqL={bit (eqMissingLeft r)} eqR={bit (eqMissingRight r)} | attr={attr}"
